@@ -116,7 +116,16 @@ var sites map[int]string
 
 func loadSites() {
 	sites = map[int]string{}
-	b, err := os.ReadFile(lib.VerifDir + "/.build/overlay-maporder/report.json")
+	// the site table of the overlay this binary was built with (bin/vcheck puts
+	// it next to the binary), else the standard overlay's
+	var b []byte
+	var err error
+	if exe, e := os.Executable(); e == nil {
+		b, err = os.ReadFile(exe + ".sites.json")
+	}
+	if len(b) == 0 || err != nil {
+		b, err = os.ReadFile(lib.VerifDir + "/.build/overlay-maporder/report.json")
+	}
 	if err != nil {
 		return
 	}
